@@ -88,6 +88,32 @@ pub enum OpKind {
     ReadAt { cap: u16, off: u32 },
     /// `AsyncFd::write(Vec<u8>).at(off)`.
     WriteAt { len: u16, off: u32 },
+    /// `fs::create_dir(sq, path)`: a path string read by the kernel.
+    CreateDir { len: u8 },
+    /// `fs::remove_file` / `fs::remove_dir`.
+    Remove { len: u8, dir: bool },
+    /// `fs::rename(sq, from, to)`: two path strings.
+    Rename { a: u8, b: u8 },
+    /// `AsyncFd::bind(SocketAddr)`: address storage read by the kernel.
+    Bind { v6: bool },
+    /// `process::wait(sq, WaitOn::Process(pid)).flags(EXITED)`: siginfo
+    /// out-parameter inside the operation.
+    Wait { pid: u16 },
+}
+
+/// The path operation `id` names: `len` extra characters after a fixed stem.
+pub fn path_for(id: usize, which: usize, len: u8) -> std::path::PathBuf {
+    let mut p = format!("/a10verif-no-such-dir/op{id}-{which}-");
+    for j in 0..len as usize {
+        p.push((b'a' + ((id + j) % 26) as u8) as char);
+    }
+    std::path::PathBuf::from(p)
+}
+
+fn path_matches(seen: &[u8], want: &std::path::Path) -> bool {
+    use std::os::unix::ffi::OsStrExt;
+    let w = want.as_os_str().as_bytes();
+    seen.starts_with(w) && (seen.len() == w.len() || seen[w.len()] == 0)
 }
 
 pub const RECV_FLAGS: [(a10::net::RecvFlag, i32); 4] = [(a10::net::RecvFlag::PEEK, libc::MSG_PEEK), (a10::net::RecvFlag::WAIT_ALL, libc::MSG_WAITALL), (a10::net::RecvFlag::OOB, libc::MSG_OOB), (a10::net::RecvFlag::CMSG_CLOEXEC, libc::MSG_CMSG_CLOEXEC)];
@@ -141,13 +167,18 @@ impl OpKind {
             OpKind::Send { .. } => "send[flags]",
             OpKind::ReadAt { .. } => "read[from]",
             OpKind::WriteAt { .. } => "write[at]",
+            OpKind::CreateDir { .. } => "create_dir",
+            OpKind::Remove { .. } => "remove",
+            OpKind::Rename { .. } => "rename",
+            OpKind::Bind { .. } => "bind",
+            OpKind::Wait { .. } => "wait",
         }
     }
     pub fn has_memory(&self) -> bool {
         !matches!(self, OpKind::Truncate)
     }
     pub fn valued(&self) -> bool {
-        !matches!(self, OpKind::Truncate | OpKind::Connect { .. })
+        !matches!(self, OpKind::Truncate | OpKind::Connect { .. } | OpKind::CreateDir { .. } | OpKind::Remove { .. } | OpKind::Rename { .. } | OpKind::Bind { .. })
     }
 }
 
@@ -428,6 +459,63 @@ impl OpState {
                     Err(e) => Out::from_err(&e),
                 })
             }
+            OpKind::CreateDir { len } => {
+                st.fd_raw = libc::AT_FDCWD;
+                let path = {
+                    let _s = track::scope(track::TAG_RESOURCE);
+                    path_for(id, 0, *len)
+                };
+                let sq = world.sq();
+                let _s = track::scope(track::TAG_A10);
+                boxed(a10::fs::create_dir(sq, path), |r| match r {
+                    Ok(()) => Out::Unit,
+                    Err(e) => Out::from_err(&e),
+                })
+            }
+            OpKind::Remove { len, dir } => {
+                st.fd_raw = libc::AT_FDCWD;
+                let path = {
+                    let _s = track::scope(track::TAG_RESOURCE);
+                    path_for(id, 0, *len)
+                };
+                let sq = world.sq();
+                let _s = track::scope(track::TAG_A10);
+                let fut = if *dir { a10::fs::remove_dir(sq, path) } else { a10::fs::remove_file(sq, path) };
+                boxed(fut, |r| match r {
+                    Ok(()) => Out::Unit,
+                    Err(e) => Out::from_err(&e),
+                })
+            }
+            OpKind::Rename { a, b } => {
+                st.fd_raw = libc::AT_FDCWD;
+                let (from, to) = {
+                    let _s = track::scope(track::TAG_RESOURCE);
+                    (path_for(id, 0, *a), path_for(id, 1, *b))
+                };
+                let sq = world.sq();
+                let _s = track::scope(track::TAG_A10);
+                boxed(a10::fs::rename(sq, from, to), |r| match r {
+                    Ok(()) => Out::Unit,
+                    Err(e) => Out::from_err(&e),
+                })
+            }
+            OpKind::Bind { v6 } => {
+                let addr = sock_addr(id, *v6);
+                let _s = track::scope(track::TAG_A10);
+                boxed(afd.bind(addr), |r| match r {
+                    Ok(()) => Out::Unit,
+                    Err(e) => Out::from_err(&e),
+                })
+            }
+            OpKind::Wait { pid } => {
+                st.fd_raw = 100_000 + *pid as i32;
+                let sq = world.sq();
+                let _s = track::scope(track::TAG_A10);
+                boxed(a10::process::wait(sq, a10::process::WaitOn::Process(100_000 + *pid as u32)).flags(a10::process::WaitOption::EXITED), |r| match r {
+                    Ok(info) => Out::Value(info.pid() as u64),
+                    Err(e) => Out::from_err(&e),
+                })
+            }
         };
         (st, fut)
     }
@@ -453,9 +541,14 @@ impl OpState {
                     want.addr = sqe.addr;
                 }
             }
-            OpKind::WriteVectored { .. } | OpKind::ReadVectored { .. } | OpKind::SendTo { .. } | OpKind::RecvFrom { .. } | OpKind::SockOpt | OpKind::Statx | OpKind::Connect { .. } => {
+            OpKind::WriteVectored { .. } | OpKind::ReadVectored { .. } | OpKind::SendTo { .. } | OpKind::RecvFrom { .. } | OpKind::SockOpt | OpKind::Statx | OpKind::Connect { .. } | OpKind::CreateDir { .. } | OpKind::Remove { .. } | OpKind::Rename { .. } | OpKind::Bind { .. } | OpKind::Wait { .. } => {
                 // Opcode and descriptor only: the full encodings are C13's.
                 let opcode = match &self.kind {
+                    OpKind::CreateDir { .. } => abi::OP_MKDIRAT,
+                    OpKind::Remove { .. } => abi::OP_UNLINKAT,
+                    OpKind::Rename { .. } => abi::OP_RENAMEAT,
+                    OpKind::Bind { .. } => abi::OP_BIND,
+                    OpKind::Wait { .. } => abi::OP_WAITID,
                     OpKind::WriteVectored { .. } => abi::OP_WRITEV,
                     OpKind::ReadVectored { .. } => abi::OP_READV,
                     OpKind::SendTo { .. } => abi::OP_SEND,
@@ -657,7 +750,49 @@ impl OpState {
                 self.expect = Some(Expect::Value(stx.stx_size));
                 Ok((0, 0))
             }
-            OpKind::Connect { v6 } => {
+            OpKind::CreateDir { len } | OpKind::Remove { len, .. } => {
+                match req.regions.iter().find(|r| r.what == "path") {
+                    Some(region) => match regions::read_region(region, 0, region.len) {
+                        Some(raw) if path_matches(&raw, &path_for(self.id, 0, *len)) => {}
+                        Some(raw) => return Err(format!("C01:path-changed: the path the kernel reads is {:?}, not the caller's", String::from_utf8_lossy(&raw))),
+                        None => return Err("C01:region-moved: path string no longer where the submission said".into()),
+                    },
+                    None => return Err("C01:region-not-owned: the submission designates no readable path string".into()),
+                }
+                self.expect = Some(Expect::Unit);
+                Ok((0, 0))
+            }
+            OpKind::Rename { a, b } => {
+                for (what, which, len) in [("path", 0usize, *a), ("path2", 1usize, *b)] {
+                    match req.regions.iter().find(|r| r.what == what) {
+                        Some(region) => match regions::read_region(region, 0, region.len) {
+                            Some(raw) if path_matches(&raw, &path_for(self.id, which, len)) => {}
+                            Some(raw) => return Err(format!("C01:path-changed: the {what} the kernel reads is {:?}, not the caller's", String::from_utf8_lossy(&raw))),
+                            None => return Err("C01:region-moved: path string no longer where the submission said".into()),
+                        },
+                        None => return Err("C01:region-not-owned: the submission designates no readable path string".into()),
+                    }
+                }
+                self.expect = Some(Expect::Unit);
+                Ok((0, 0))
+            }
+            OpKind::Wait { pid } => {
+                let Some(region) = req.regions.iter().find(|r| r.what == "siginfo") else {
+                    return Err("C01:region-not-owned: waitid request without a valid siginfo buffer".into());
+                };
+                // si_signo, si_errno, si_code, (padding), si_pid, si_uid, si_status.
+                let mut raw = vec![0u8; size_of::<libc::siginfo_t>()];
+                raw[0..4].copy_from_slice(&libc::SIGCHLD.to_ne_bytes());
+                raw[8..12].copy_from_slice(&libc::CLD_EXITED.to_ne_bytes());
+                let value = 100_000i32 + *pid as i32;
+                raw[16..20].copy_from_slice(&value.to_ne_bytes());
+                if !regions::write_region(region, 0, &raw) {
+                    return Err("C01:region-moved: siginfo buffer no longer where the submission said".into());
+                }
+                self.expect = Some(Expect::Value(value as u64));
+                Ok((0, 0))
+            }
+            OpKind::Connect { v6 } | OpKind::Bind { v6 } => {
                 match req.regions.iter().find(|r| r.what == "address") {
                     Some(region) => match regions::read_region(region, 0, region.len) {
                         Some(raw) if raw_matches(&raw, self.id, *v6) => {}
